@@ -29,6 +29,7 @@ import (
 	"github.com/thushan/olla/internal/core/domain"
 	"github.com/thushan/olla/internal/core/ports"
 	"github.com/thushan/olla/internal/logger"
+	"gopkg.in/yaml.v3"
 )
 
 // ---------------------------------------------------------------- scripted backend
@@ -437,6 +438,9 @@ type Opts struct {
 	EPs      []EP
 	ModelDiscovery bool
 	Mutate   func(*config.Config)
+	// Load: write the configuration out as YAML and read it back through config.Load (the call main.go makes),
+	// so that the file loader, its defaulting and its validation are part of what is exercised
+	Load bool
 }
 
 type Stack struct {
@@ -549,9 +553,27 @@ func start1(o Opts) (*Stack, error) {
 	if o.Mutate != nil {
 		o.Mutate(cfg)
 	}
+	cfg.Server.Port = freePort()
+	if o.Load {
+		data, err := yaml.Marshal(cfg)
+		if err != nil {
+			return nil, fmt.Errorf("stack: marshal config: %w", err)
+		}
+		f, err := os.CreateTemp("", "olla-verif-*.yaml")
+		if err != nil {
+			return nil, err
+		}
+		f.Write(data)
+		f.Close()
+		loaded, err := config.Load(f.Name())
+		os.Remove(f.Name())
+		if err != nil {
+			return nil, fmt.Errorf("stack: config.Load: %w", err)
+		}
+		cfg = loaded
+	}
 	ctx, cancel := context.WithCancel(context.Background())
 
-	cfg.Server.Port = freePort()
 	mgr, err := app.CreateAndStartServiceManager(ctx, cfg, quiet())
 
 	if err != nil {
